@@ -185,6 +185,28 @@ def _judge(ctx, v, code):
                 break
     if _issues_sig(first) != _issues_sig(second):
         ctx.violation('nondeterministic', 'second call differs: %r vs %r' % (_issues_sig(first)[:3], _issues_sig(second)[:3]), w)
+    # listing a sub-tree (grammar.iter_errors(node) for a function, a class, any inner node): total, repeatable, inside the file
+    inner = [n for n in walk(m) if getattr(n, 'children', None) and n is not m]
+    if inner:
+        picks = {id(n): n for n in [inner[len(inner) // 2], inner[len(inner) // 3], inner[-1]]
+                 + [n for n in inner if n.type in ('funcdef', 'classdef', 'error_node', 'suite')][:3]}
+        for sub in picks.values():
+            try:
+                a = list(g.iter_errors(sub))
+                b = list(g.iter_errors(sub))
+            except RecursionError:
+                ctx.count('recursion_error_skipped')
+                continue
+            except Exception:
+                continue      # recorded by the exception observer
+            ctx.count('subtree_listings')
+            ctx.observe('subtree_listing_root_types', sub.type)
+            if _issues_sig(a) != _issues_sig(b):
+                ctx.violation('nondeterministic', 'second listing of the %s at %s differs' % (sub.type, sub.start_pos), w)
+            for i in a:
+                if not ((1, 0) <= tuple(i.start_pos) <= tuple(i.end_pos) <= tuple(m.end_pos)) or i.code not in (901, 903):
+                    ctx.violation('issue_range', 'listing the %s at %s: issue %r code %r range %s..%s' % (
+                        sub.type, sub.start_pos, i.message, i.code, i.start_pos, i.end_pos), w)
     try:
         g.parse(code, error_recovery=False)
         strict_ok = True
@@ -268,7 +290,7 @@ def shards(tier, seed):
 
 def floors(tier):
     return {'evaluations': 4000, 'contract_evals:Grammar.iter_errors': 8000, 'lists_nonempty': 2000,
-            'lists_semantic_only': 100, 'strict_failed': 2000, 'set:rules_fed': 28}
+            'lists_semantic_only': 100, 'strict_failed': 2000, 'set:rules_fed': 28, 'subtree_listings': 10000}
 
 
 def extra_coverage(m, tier):
